@@ -17,6 +17,8 @@ from common import Check  # noqa: E402
 REGISTRY = {
     "C01": ("c01", ["Esp.Props.C01"]),
     "C02": ("c02", ["Esp.Props.C02"]),
+    "C03": ("c03", ["Esp.Props.C03"]),
+    "C04": ("c04", ["Esp.Props.C04"]),
 }
 
 
